@@ -23,8 +23,8 @@ PERM_SETS = {"quick": 24, "thorough": 12}
 CASES = {"quick": 1200 + PERM_SETS["quick"], "thorough": 12000 + PERM_SETS["thorough"]}
 FLOOR = {"quick": 1100, "thorough": 11000}
 FLOOR_COUNTERS = {
-    "quick": {"pointer_events": 20000, "gabriel_graphs_checked": 350, "permutation_fits": 24 * 120 + 1000, "periodic_fits": 300, "tie_free_relation_cases": 600, "refitted_estimators": 350, "other_length_units": 250, "small_length_units": 100},
-    "thorough": {"pointer_events": 250000, "gabriel_graphs_checked": 3500, "permutation_fits": 12 * 5040 + 10000, "periodic_fits": 3000, "tie_free_relation_cases": 6000, "refitted_estimators": 3500, "other_length_units": 2500, "small_length_units": 1000},
+    "quick": {"pointer_events": 20000, "gabriel_graphs_checked": 350, "permutation_fits": 24 * 120 + 1000, "periodic_fits": 300, "tie_free_relation_cases": 600, "refitted_estimators": 350, "other_length_units": 250, "small_length_units": 100, "cell_given_after_construction": 120},
+    "thorough": {"pointer_events": 250000, "gabriel_graphs_checked": 3500, "permutation_fits": 12 * 5040 + 10000, "periodic_fits": 3000, "tie_free_relation_cases": 6000, "refitted_estimators": 3500, "other_length_units": 2500, "small_length_units": 1000, "cell_given_after_construction": 1200},
 }
 RULE = (
     "case = point set (1-4 dimensions, 2-150 points [<= 60 in Gabriel mode]; generic / collinear / duplicated / lattice), "
@@ -86,6 +86,7 @@ def gen(rng, tier, index):
         if mode == "cutoff":
             case["cuts"] = case["cuts"] * unit**2
     case["unit"] = unit
+    case["cell_set"] = gens.pick(rng, ("ctor", "ctor", "set_params", "setattr", "decoy_then_set"))
     case["refit"] = bool(rng.random() < 0.4)  # the estimator is fitted again (other data in between)
     case["X_other"] = _points(rng, n, d, "generic") * unit
     case["perms"] = [rng.permutation(n) for _ in range(3)]
@@ -164,10 +165,20 @@ def _fit(case, X, w, cuts=None, record=None, graphs=None, est=None):
     mp = {"cell_length": None if case["cell"] is None else case["cell"].copy()}
     if est is not None:
         q = est
-    elif case["mode"] == "cutoff":
-        q = QuickShift(dist_cutoff_sq=np.array(case["cuts"] if cuts is None else cuts, copy=True), scale=case["scale"], metric_params=mp)
     else:
-        q = QuickShift(gabriel_shell=case["shell"], metric_params=mp)
+        late = case.get("cell_set", "ctor")  # the periodic cell given to the constructor, or to the object afterwards
+        mp0 = mp if late == "ctor" else None
+        if case["mode"] == "cutoff":
+            q = QuickShift(dist_cutoff_sq=np.array(case["cuts"] if cuts is None else cuts, copy=True), scale=case["scale"], metric_params=mp0)
+        else:
+            q = QuickShift(gabriel_shell=case["shell"], metric_params=mp0)
+        if late == "set_params":
+            q.set_params(metric_params=mp)
+        elif late == "setattr":
+            q.metric_params = mp
+        elif late == "decoy_then_set":
+            q.metric_params = {"cell_length": None if case["cell"] is None else case["cell"] * 1.7}
+            q.set_params(metric_params=mp)
     ctxs = []
     if record is not None:
         def post(self, tok, res, a, k):
@@ -219,6 +230,8 @@ def run(case, j):
     q = j.lib("fit", _fit, case, X, w, None, record, graphs)
     if cell is not None:
         j.note("periodic_fits")
+        if case.get("cell_set", "ctor") != "ctor":
+            j.note("cell_given_after_construction")
     labels = np.asarray(q.labels_)
     centres = [int(c) for c in q.cluster_centers_idx_]
     if case.get("refit"):
